@@ -157,6 +157,15 @@ func e4CondWaits(p *Prog, r *Report, rule string) {
 	type key struct{ cond string }
 	written := map[string]map[string]bool{}
 	closers := map[string][]string{}
+	// facts[cond][field] = constant the closer stores ("true","false","nil","0"), or
+	// "deleted" for a map field the closer deletes from
+	facts := map[string]map[string]string{}
+	type directCloser struct {
+		fn     *ssa.Function
+		bcasts []ssa.Instruction
+		stores map[string][]ssa.Instruction // field -> constant stores in fn itself
+	}
+	direct := map[string][]*directCloser{}
 	for _, fn := range p.Funcs {
 		nm := fn.Name()
 		if nm != "Close" {
@@ -164,6 +173,9 @@ func e4CondWaits(p *Prog, r *Report, rule string) {
 		}
 		var conds []string
 		var stores []string
+		fct := map[string]string{}
+		dc := &directCloser{fn: fn, stores: map[string][]ssa.Instruction{}}
+		dcConds := map[string]bool{}
 		// the closer and what it calls synchronously (depth <= 3)
 		seenF := map[*ssa.Function]bool{}
 		var visit func(f *ssa.Function, d int)
@@ -176,6 +188,10 @@ func e4CondWaits(p *Prog, r *Report, rule string) {
 				if c := CallOf(in); c != nil {
 					if CalleeIs(c, "sync", "Cond", "Broadcast") || CalleeIs(c, "sync", "Cond", "Signal") {
 						conds = append(conds, condKey(c.Args[0]))
+						if f == fn {
+							dc.bcasts = append(dc.bcasts, in)
+							dcConds[condKey(c.Args[0])] = true
+						}
 					}
 					if _, isGo := in.(*ssa.Go); !isGo {
 						for _, callee := range p.SyncCallees(in) {
@@ -185,8 +201,18 @@ func e4CondWaits(p *Prog, r *Report, rule string) {
 				}
 				if st, ok := in.(*ssa.Store); ok {
 					if fa, ok := st.Addr.(*ssa.FieldAddr); ok {
-						if n := namedOf(fa.X.Type()); n != nil {
-							stores = append(stores, TypeKey(n)+"."+fieldName(fa.X.Type(), fa.Field))
+						if k := fieldKeyOf(fa); k != "" {
+							stores = append(stores, k)
+							if cst, ok := st.Val.(*ssa.Const); ok {
+								v := "nil"
+								if cst.Value != nil {
+									v = cst.Value.ExactString()
+								}
+								fct[k] = v
+								if f == fn {
+									dc.stores[k] = append(dc.stores[k], in)
+								}
+							}
 						}
 					}
 				}
@@ -199,8 +225,12 @@ func e4CondWaits(p *Prog, r *Report, rule string) {
 				}
 				if c := CallOf(in); c != nil && IsBuiltin(c, "delete") {
 					if fa := chanField(c.Args[0]); fa != nil {
-						if n := namedOf(fa.X.Type()); n != nil {
-							stores = append(stores, TypeKey(n)+"."+fieldName(fa.X.Type(), fa.Field))
+						if k := fieldKeyOf(fa); k != "" {
+							stores = append(stores, k)
+							fct[k] = "deleted"
+							if f == fn {
+								dc.stores[k] = append(dc.stores[k], in)
+							}
 						}
 					}
 				}
@@ -218,8 +248,18 @@ func e4CondWaits(p *Prog, r *Report, rule string) {
 				written[c][s] = true
 			}
 			closers[c] = append(closers[c], p.FuncName(fn))
+			if facts[c] == nil {
+				facts[c] = map[string]string{}
+			}
+			for k, v := range fct {
+				facts[c][k] = v
+			}
+		}
+		for c := range dcConds {
+			direct[c] = append(direct[c], dc)
 		}
 	}
+	usedFacts := map[string]map[string]bool{} // cond -> fields whose closer-written value ends some wait
 	n := 0
 	for _, fn := range p.Funcs {
 		reach := blockReach(fn)
@@ -265,10 +305,253 @@ func e4CondWaits(p *Prog, r *Report, rule string) {
 				return
 			}
 			sort.Strings(hit)
-			r.OK(rule, key, p.InstrPos(in), "loop re-checks "+hit[0]+" written by "+strings.Join(closers[ck], ","))
+			// the closer's post-state must falsify a condition that is re-evaluated inside
+			// the loop on the way to Wait (not one tested once before the loop)
+			_, body := loopBody(in.Block())
+			var ends []string
+			for ifb := range body {
+				iff, ok := ifb.Instrs[len(ifb.Instrs)-1].(*ssa.If)
+				if !ok {
+					continue
+				}
+				for k, succ := range ifb.Succs {
+					if len(succ.Preds) != 1 || ifb.Succs[0] == ifb.Succs[1] {
+						continue
+					}
+					if succ == in.Block() || succ.Dominates(in.Block()) {
+						if fld, ok := falsifiedBy(iff.Cond, k == 0, facts[ck]); ok {
+							ends = append(ends, NormAtom(iff.Cond, k == 0)+" (closer sets "+fld+")")
+							if usedFacts[ck] == nil {
+								usedFacts[ck] = map[string]bool{}
+							}
+							usedFacts[ck][fld] = true
+						}
+					}
+				}
+			}
+			if len(ends) == 0 {
+				r.Bad(rule, key, p.InstrPos(in), "no condition on the way to this Wait, re-evaluated in the loop, is made false by what "+strings.Join(closers[ck], ",")+" writes: after Close broadcasts the loop simply waits again (the closed/unregistered state is only tested before the loop, or not at all)")
+				return
+			}
+			sort.Strings(ends)
+			r.OK(rule, key, p.InstrPos(in), "loop re-checks "+hit[0]+"; Close ends the wait through "+ends[0])
 		})
 	}
 	r.Count("e4c.cond_waits", n)
+	// Signal wakes ONE waiter: it is only right when at most one goroutine can wait on
+	// the Cond (a single Wait site, in a function that only runs as the library's own
+	// goroutine).  With several waiters (e.g. a Send and a Recv parked on one context)
+	// the others sleep through the event.
+	waitFns := map[string]map[*ssa.Function]bool{}
+	for _, fn := range p.Funcs {
+		EachInstr(fn, func(in ssa.Instruction) {
+			if c := CallOf(in); c != nil && CalleeIs(c, "sync", "Cond", "Wait") {
+				ck := condKey(c.Args[0])
+				if waitFns[ck] == nil {
+					waitFns[ck] = map[*ssa.Function]bool{}
+				}
+				waitFns[ck][fn] = true
+			}
+		})
+	}
+	gt := p.goTargets()
+	ns := 0
+	for _, fn := range p.Funcs {
+		EachInstr(fn, func(in ssa.Instruction) {
+			c := CallOf(in)
+			if c == nil || !CalleeIs(c, "sync", "Cond", "Signal") {
+				return
+			}
+			ns++
+			ck := condKey(c.Args[0])
+			key := p.FuncName(fn) + "/Signal(" + ck + ")"
+			ok := len(waitFns[ck]) == 1
+			var who []string
+			for wf := range waitFns[ck] {
+				who = append(who, p.FuncName(wf))
+				if len(gt[wf]) == 0 || (wf.Parent() == nil && !lowerName(wf.Name())) {
+					ok = false
+				}
+			}
+			sort.Strings(who)
+			r.Check(ok, rule, key, p.InstrPos(in), "single waiter: only the goroutine "+strings.Join(who, ",")+" waits on this Cond", "Signal() wakes one waiter, but several goroutines can wait on "+ck+" ("+strings.Join(who, ", ")+"): the others are not woken (lost wake-up); use Broadcast")
+		})
+	}
+	r.Count("e4c.cond_signals", ns)
+	// every closer that itself sets a wait-ending fact and broadcasts must broadcast on
+	// every path that sets the fact (no early return in between)
+	var cks []string
+	for ck := range direct {
+		cks = append(cks, ck)
+	}
+	sort.Strings(cks)
+	nc := 0
+	for _, ck := range cks {
+		for _, dc := range direct[ck] {
+			for fld := range usedFacts[ck] {
+				for _, st := range dc.stores[fld] {
+					nc++
+					key := p.FuncName(dc.fn) + "/wakes-after-" + fld
+					ok, where := closerWakes(st, dc.bcasts)
+					r.Check(ok, rule, key, p.InstrPos(st), "every path that sets "+fld+" also broadcasts on "+ck, "a path sets "+fld+" and returns at "+where+" without broadcasting on "+ck+": goroutines waiting on it are never woken by this Close")
+				}
+			}
+		}
+	}
+	r.Count("e4c.closer_wakeups", nc)
+}
+
+// closerWakes: a broadcast happens before the store in the same block / a dominating
+// block (same critical section in practice), or every path from the store to a return
+// passes a broadcast (a broadcast inside a loop over the waiters counts when the loop is
+// entered on every such path).
+func closerWakes(st ssa.Instruction, bcasts []ssa.Instruction) (bool, string) {
+	via := map[ssa.Instruction]bool{}
+	viaBlock := map[*ssa.BasicBlock]bool{}
+	for _, b := range bcasts {
+		if b.Parent() != st.Parent() {
+			continue
+		}
+		if InstrDominates(b, st) {
+			return true, ""
+		}
+		via[b] = true
+		if h, _ := loopBody(b.Block()); h != nil && !loopContains(h, st.Block()) {
+			viaBlock[h] = true
+		}
+	}
+	seen := map[*ssa.BasicBlock]bool{}
+	var walk func(b *ssa.BasicBlock, i int) (bool, string)
+	walk = func(b *ssa.BasicBlock, i int) (bool, string) {
+		if i == 0 && viaBlock[b] {
+			return true, ""
+		}
+		for ; i < len(b.Instrs); i++ {
+			in := b.Instrs[i]
+			if via[in] {
+				return true, ""
+			}
+			if _, ok := in.(*ssa.Return); ok {
+				return false, b.Parent().Prog.Fset.Position(in.Pos()).String()
+			}
+			if _, ok := in.(*ssa.Panic); ok {
+				return true, ""
+			}
+		}
+		for _, s := range b.Succs {
+			if seen[s] {
+				continue
+			}
+			seen[s] = true
+			if ok, where := walk(s, 0); !ok {
+				return false, where
+			}
+		}
+		return true, ""
+	}
+	return walk(st.Block(), instrIndex(st)+1)
+}
+
+func loopContains(head, b *ssa.BasicBlock) bool {
+	_, body := loopBody(b)
+	h2, _ := loopBody(b)
+	_ = body
+	return h2 == head
+}
+
+// falsifiedBy: the atom (cond with polarity) is false in the state the closer leaves
+// behind; returns the field whose written value decides it.
+func falsifiedBy(cond ssa.Value, pol bool, facts map[string]string) (string, bool) {
+	if u, ok := cond.(*ssa.UnOp); ok && u.Op == token.NOT {
+		return falsifiedBy(u.X, !pol, facts)
+	}
+	fieldOf := func(v ssa.Value) string {
+		if u, ok := v.(*ssa.UnOp); ok && u.Op == token.MUL {
+			if fa, ok := u.X.(*ssa.FieldAddr); ok {
+				return fieldKeyOf(fa)
+			}
+		}
+		return ""
+	}
+	switch x := cond.(type) {
+	case *ssa.UnOp:
+		if k := fieldOf(x); k != "" {
+			switch facts[k] {
+			case "true":
+				if !pol {
+					return k, true
+				}
+			case "false":
+				if pol {
+					return k, true
+				}
+			}
+		}
+	case *ssa.Extract:
+		if lk, ok := x.Tuple.(*ssa.Lookup); ok && lk.CommaOk && x.Index == 1 {
+			if k := fieldOf(lk.X); k != "" && facts[k] == "deleted" && pol {
+				return k, true
+			}
+		}
+	case *ssa.BinOp:
+		var k string
+		var other ssa.Value
+		isLen := false
+		side := func(v ssa.Value) (string, bool) {
+			if c, ok := v.(*ssa.Call); ok {
+				if b, ok := c.Call.Value.(*ssa.Builtin); ok && b.Name() == "len" {
+					return fieldOf(c.Call.Args[0]), true
+				}
+			}
+			return fieldOf(v), false
+		}
+		if kk, l := side(x.X); kk != "" {
+			k, isLen, other = kk, l, x.Y
+		} else if kk, l := side(x.Y); kk != "" {
+			k, isLen, other = kk, l, x.X
+		}
+		c, isConst := other.(*ssa.Const)
+		if k != "" && !isConst && !isLen && x.Op == token.EQL && pol {
+			// field == snapshot: the other side is a local holding an earlier value of the
+			// same field, taken under a guard that it differed from what the closer stores
+			if f, has := facts[k]; has && f != "deleted" && snapshotDiffers(other, k, f) {
+				return k, true
+			}
+		}
+		if k == "" || !isConst {
+			return "", false
+		}
+		f, has := facts[k]
+		if !has || f == "deleted" {
+			return "", false
+		}
+		// is "field (or its len) == const" true in the closer's post-state?
+		eq := false
+		switch {
+		case isLen:
+			if f != "nil" {
+				return "", false
+			}
+			eq = c.Value != nil && c.Value.ExactString() == "0"
+		case c.Value == nil:
+			eq = f == "nil"
+		default:
+			eq = f == c.Value.ExactString()
+		}
+		truth := false
+		switch x.Op {
+		case token.EQL:
+			truth = eq
+		case token.NEQ:
+			truth = !eq
+		default:
+			return "", false
+		}
+		if truth != pol {
+			return k, true
+		}
+	}
+	return "", false
 }
 
 func condKey(v ssa.Value) string {
@@ -283,4 +566,63 @@ func condKey(v ssa.Value) string {
 		return Desc(x)
 	}
 	return Desc(v)
+}
+
+// fieldKeyOf: "rel.Type.field" for a field of a named struct, the access path for a field
+// of a package-level variable of unnamed struct type.
+func fieldKeyOf(fa *ssa.FieldAddr) string {
+	if n := namedOf(fa.X.Type()); n != nil {
+		return TypeKey(n) + "." + fieldName(fa.X.Type(), fa.Field)
+	}
+	if _, ok := fa.X.(*ssa.Global); ok {
+		return Desc(fa)
+	}
+	return ""
+}
+
+// snapshotDiffers: v is a load of a local cell whose only store is a load of field k, made
+// under a guard "field != c" where c is the constant the closer stores.
+func snapshotDiffers(v ssa.Value, k, c string) bool {
+	u, ok := v.(*ssa.UnOp)
+	if !ok || u.Op != token.MUL {
+		return false
+	}
+	al, ok := u.X.(*ssa.Alloc)
+	if !ok || al.Referrers() == nil {
+		return false
+	}
+	var st *ssa.Store
+	for _, ref := range *al.Referrers() {
+		if s, ok := ref.(*ssa.Store); ok && s.Addr == al {
+			if st != nil {
+				return false
+			}
+			st = s
+		}
+	}
+	if st == nil {
+		return false
+	}
+	ld, ok := st.Val.(*ssa.UnOp)
+	if !ok || ld.Op != token.MUL {
+		return false
+	}
+	fa, ok := ld.X.(*ssa.FieldAddr)
+	if !ok || fieldKeyOf(fa) != k {
+		return false
+	}
+	want := Desc(fa) + " != " + c
+	b := st.Block()
+	for _, ifb := range b.Parent().Blocks {
+		iff, ok := ifb.Instrs[len(ifb.Instrs)-1].(*ssa.If)
+		if !ok {
+			continue
+		}
+		for i, succ := range ifb.Succs {
+			if len(succ.Preds) == 1 && (succ == b || succ.Dominates(b)) && NormAtom(iff.Cond, i == 0) == want {
+				return true
+			}
+		}
+	}
+	return false
 }
